@@ -172,8 +172,10 @@ def finish(eng, fi, c, fr, outcome):
         for exc_name, cond in c.raises.items():
             if isinstance(cond, str) and cond.startswith('iff:'):
                 fr0 = entry_frame(fr)
-                eng.prove('post.noraise.' + exc_name.split('[')[0], z3.Not(eng.pure_bool(cond[4:], fr0)),
-                          kind='post', props=c.clause_props(exc_name))
+                with entry_heap(eng):
+                    cz = eng.pure_bool(cond[4:], fr0)
+                eng.prove('post.noraise.' + exc_name.split('[')[0], z3.Not(cz),
+                          kind='post', props=c.clause_props(exc_name), assume_after=False)
         eng.forall_mode = 'assume'
         eng.cover('cover.return')
     else:
@@ -193,8 +195,10 @@ def finish(eng, fi, c, fr, outcome):
         if isinstance(cond, str) and cond.startswith('iff:'):
             cond = cond[4:]
         fr0 = entry_frame(fr)
-        eng.prove('xpost.' + exc_name.split('[')[0], eng.pure_bool(cond, fr0), kind='xpost',
-                  props=c.clause_props(exc_name))
+        with entry_heap(eng):
+            cz = eng.pure_bool(cond, fr0)
+        eng.prove('xpost.' + exc_name.split('[')[0], cz, kind='xpost',
+                  props=c.clause_props(exc_name), assume_after=False)
         for name, ex in c.extra.get('partial', {}).items():
             only = None
             if isinstance(ex, tuple):
@@ -203,6 +207,29 @@ def finish(eng, fi, c, fr, outcome):
                 continue
             eng.prove('xpost.partial.' + name.split('[')[0], eng.pure_bool(ex, fr), kind='xpost',
                       props=c.clause_props(name), assume_after=False)
+
+
+class entry_heap:
+    """evaluate in the heap as it was at unit entry (raises-conditions talk about the pre-state)"""
+
+    def __init__(self, eng):
+        self.eng = eng
+
+    def __enter__(self):
+        st = self.eng.st
+        self.cur = st.heap
+        snap = st.ghost.get('entry_heap')
+        if snap is not None:
+            st.heap = dict(snap)
+        self.snap = snap
+
+    def __exit__(self, *a):
+        st = self.eng.st
+        if self.snap is not None:
+            for k_, v_ in st.heap.items():
+                if k_ not in self.cur:
+                    self.cur[k_] = v_
+            st.heap = self.cur
 
 
 def entry_frame(fr):
